@@ -529,6 +529,15 @@ def inventory(facts, rep, rule, roots, floor=None, exclude=(), prop=None):
                 rep.ok(rule, s.key, "discharged by local guard: " + s.auto, s.loc)
                 continue
             ent = tab.get(s.key)
+            if ent is None:
+                # the site may have come here with a recorded helper that was inlined into this fn and deleted
+                for m_ in (getattr(facts, "moved_into", None) or {}).get(s.fn, []):
+                    for o_ in range(0, 4):
+                        ent = tab.get("%s|%s|%s|%d" % (m_, s.kind, s.origin, o_))
+                        if ent is not None:
+                            break
+                    if ent is not None:
+                        break
             if ent is not None and prop and prop in ent.get("props", {}):
                 ent = ent["props"][prop]
             if ent is None:
